@@ -20,7 +20,7 @@ func c01Case(f *evid.Flags, idx, nExh int, hits *[9]map[string]int) (*gen.Progra
 	r := rng.New(f.Seed, 0xc01, uint64(idx))
 	g := &gen.G{R: r, Hits: hits}
 	g.V = gen.V{R: r, Big: f.Thorough() || r.Chance(1, 40)}
-	g.P = gen.Profile{MaxDepth: 4, UpdateAnywhere: true}
+	g.P = gen.Profile{MaxDepth: 4, UpdateAnywhere: true, CustomIface: true}
 	if f.Thorough() {
 		g.P.MaxDepth = 7
 	}
